@@ -12,22 +12,37 @@ Local Open Scope Z_scope.
    resolved is wiped; every other AVS, every row of an unregistered AVS and the key set are untouched.  It holds of the model
    of the hook for EVERY ledger, price table, AVS registry and stored state. *)
 Theorem C05_epoch_end_meets_statement : forall e s c,
-  nodupb Z.eqb (map v_id (e_avss e)) = true -> env_nonneg e = true -> no_aliases e = true ->
+  nodupb Z.eqb (map v_id (e_avss e)) = true -> env_nonneg e = true -> alias_free e s = true ->
   step_ok e [c] s (epoch_end e s c) = true.
 Proof. exact epoch_end_meets_statement. Qed.
 Print Assumptions C05_epoch_end_meets_statement.
 
 (* the same for a block in which several epoch identifiers end at once (real BeginBlocker) *)
 Theorem C05_block_meets_statement : forall e s calls,
-  nodupb Z.eqb (map v_id (e_avss e)) = true -> env_nonneg e = true -> no_aliases e = true ->
+  nodupb Z.eqb (map v_id (e_avss e)) = true -> env_nonneg e = true -> alias_free e s = true ->
   step_ok e calls s (step e s calls) = true.
 Proof. exact step_meets_statement. Qed.
 Print Assumptions C05_block_meets_statement.
 
-(* over any sequence of epoch ends with arbitrary ledger / price / registry changes in between *)
-Theorem C05_history_meets_statement : forall h s, hist_wf h = true -> all_blocks_ok s h = true.
+(* over any history of epoch ends, opt-ins and opt-outs (any order), with arbitrary ledger and price changes in between and a
+   fixed AVS registry: from a state that stores nothing under an alias spelling, the statement holds at every epoch end.
+   Alias-freedom is an invariant (C05_alias_free_invariant): the repaired IsAVS only accepts the registered spelling. *)
+Theorem C05_history_meets_statement : forall reg h s, hist_wf reg h = true -> alias_free (mkEnv [] [] reg) s = true ->
+  all_blocks_ok reg s h = true.
 Proof. exact history_meets_statement. Qed.
 Print Assumptions C05_history_meets_statement.
+
+Theorem C05_alias_free_invariant : forall e s, aliases_disjoint e = true -> alias_free e s = true ->
+  (forall key op pre, alias_free e (opt_in e s key op pre) = true) /\
+  (forall key op pre, alias_free e (opt_out e s key op pre) = true) /\
+  (forall calls, alias_free e (step e s calls) = true).
+Proof.
+  intros e s Hd Haf. split; [|split]; intros.
+  - apply opt_in_alias_free; assumption.
+  - apply opt_out_alias_free; assumption.
+  - apply step_alias_free; assumption.
+Qed.
+Print Assumptions C05_alias_free_invariant.
 
 Theorem C05_usd_formula : forall amount price dec pdec, 0 <= amount -> 0 <= price -> 0 <= dec -> 0 <= pdec ->
   usd amount price dec pdec = (amount * price * P) / 10 ^ (dec + pdec).
@@ -62,6 +77,41 @@ Theorem C05_total_monotone_in_amounts : forall e e' a op,
 Proof. exact expected_total_mono. Qed.
 Print Assumptions C05_total_monotone_in_amounts.
 
+Theorem C05_total_monotone_in_prices : forall e e' a op,
+  e_pools e' = e_pools e -> Forall2 price_le (e_assets e) (e_assets e') ->
+  forallb (fun x => 0 <=? p_total x) (e_pools e) = true ->
+  expected_total e a op <= expected_total e' a op.
+Proof. exact expected_total_mono_prices. Qed.
+Print Assumptions C05_total_monotone_in_prices.
+
+Theorem C05_self_monotone_in_prices : forall e e' a op,
+  e_pools e' = e_pools e -> Forall2 price_le (e_assets e) (e_assets e') ->
+  forallb (fun x => (0 <=? p_total x) && (0 <=? p_tshare x) && (0 <=? p_oshare x)) (e_pools e) = true ->
+  expected_self e a op <= expected_self e' a op.
+Proof. exact expected_self_mono_prices. Qed.
+Print Assumptions C05_self_monotone_in_prices.
+
+(* the token equivalent of the self share (banker's rounding inside TokensFromShares): monotone in the operator share and in
+   the pool amount, and within one unit of the exact quotient X = share*amount/totalShare:  X - 1 - 1e-18 < v <= X + 0.5e-18 *)
+Theorem C05_self_tokens_monotone : forall share share' tshare total total' v v',
+  0 <= share -> share <= share' -> 0 <= total -> total <= total' -> 0 < tshare ->
+  tokens_from_shares share tshare total = Ok v -> tokens_from_shares share' tshare total' = Ok v' -> v <= v'.
+Proof. exact tokens_mono. Qed.
+Print Assumptions C05_self_tokens_monotone.
+
+Theorem C05_self_tokens_rounding_bound : forall share tshare total v,
+  0 <= share -> 0 < tshare -> 0 <= total -> tokens_from_shares share tshare total = Ok v ->
+  2 * P * v * tshare <= 2 * P * (share * total) + tshare /\
+  2 * P * (share * total) < 2 * P * (v + 1) * tshare + 2 * tshare.
+Proof. exact tokens_bounds. Qed.
+Print Assumptions C05_self_tokens_rounding_bound.
+
+(* the upper bound is tight: the token equivalent can exceed the exact quotient (by less than 1e-18 of a unit):
+   operator share 2 - 1e-18 of 2 shares over a pool of 1 unit has exact value 1 - 0.5e-18 and is rounded (half to even) to 1 *)
+Example C05_self_tokens_can_round_up :
+  tokens_from_shares (2 * P - 1) (2 * P) 1 = Ok 1 /\ (2 * P - 1) * 1 < 1 * (2 * P).
+Proof. vm_compute. split; reflexivity. Qed.
+
 (* failure keeps old: UpdateVotingPower errs exactly when the guard fails, and then the whole state is as before *)
 Theorem C05_failure_keeps_old : forall e a s, v_assets_ok a = true ->
   snd (update_voting_power e a s) = avs_fails e a (s_rows s) /\
@@ -87,7 +137,9 @@ Definition ex_st := mkSt
    operator 1 has self 1 < 2 (inactive); AVS 2 (start 9) not yet; AVS 3 other identifier; AVS 4 has an asset without oracle
    token (keeps old); AVS 5 cannot resolve its assets (wiped); the orphan row of AVS 77 stays *)
 Example C05_witness :
-  hist_wf [(ex_env, (1, 2))] = true /\
+  hist_wf (e_avss ex_env) [(e_pools ex_env, e_assets ex_env, HOptIn 1 5 true); (e_pools ex_env, e_assets ex_env, HEpoch (1, 2));
+                            (e_pools ex_env, e_assets ex_env, HOptOut 1 5 true)] = true /\
+  alias_free ex_env ex_st = true /\
   epoch_end ex_env ex_st (1, 2) =
   mkSt [mkRow 1 0 (2 * P) (7505 * P) (7505 * P); mkRow 1 1 (1 * P) (1 * P) 0; mkRow 2 0 9 9 9; mkRow 3 1 0 0 0; mkRow 4 0 4 4 4;
         mkRow 77 0 1 2 3]
@@ -99,12 +151,18 @@ Example C05_witness_hour : s_rows (epoch_end ex_env ex_st (2, 5)) =
   [mkRow 1 0 0 0 0; mkRow 1 1 0 0 0; mkRow 2 0 9 9 9; mkRow 3 1 (7 * P) (7 * P) (7 * P); mkRow 4 0 4 4 4; mkRow 5 1 5 5 5; mkRow 77 0 1 2 3].
 Proof. vm_compute. reflexivity. Qed.
 
-(* the known finding: the AVS keeper resolves an AVS by address bytes, the operator module keys opt-ins and rows by the
-   address STRING. An operator opted in under another letter case of the AVS address (id 77 here) is opted in as far as
-   IsOptedIn / IsAVS are concerned, but the epoch hook never visits its row: the statement fails. *)
+(* regression for the repaired defect (x/avs IsAVS accepted every letter case of a registered AVS address while x/operator
+   keys its records by the address string): with AVS 1 registered and key 77 another spelling of its address, an opt-in under
+   key 77 is rejected (nothing is stored under it), the registered spelling is accepted, and from the alias-free state the
+   epoch end satisfies the statement. The row `mkRow 77 ...` of the former refutation witness cannot be created any more. *)
 Definition ex_env_alias := mkEnv (e_pools ex_env) (e_assets ex_env) [mkAvs 1 1 3 2 [0; 1] true [77]].
-Theorem C05_address_case_refuted : exists e s c,
-  nodupb Z.eqb (map v_id (e_avss e)) = true /\ env_nonneg e = true /\
-  step_ok e [c] s (epoch_end e s c) = false.
-Proof. exists ex_env_alias, ex_st, (1, 2). vm_compute. repeat split; reflexivity. Qed.
-Print Assumptions C05_address_case_refuted.
+Definition ex_st_clean := mkSt [mkRow 1 0 0 0 0] [].
+Example C05_address_case_regression :
+  aliases_disjoint ex_env_alias = true /\ alias_free ex_env_alias ex_st_clean = true /\
+  opt_in ex_env_alias ex_st_clean 77 1 true = ex_st_clean /\
+  s_rows (opt_in ex_env_alias ex_st_clean 1 1 true) = [mkRow 1 0 0 0 0; mkRow 1 1 0 0 0] /\
+  step_ok ex_env_alias [(1, 2)] (opt_in ex_env_alias ex_st_clean 1 1 true)
+          (epoch_end ex_env_alias (opt_in ex_env_alias ex_st_clean 1 1 true) (1, 2)) = true /\
+  (* why the hypothesis is needed: a state that does hold a row under the alias spelling violates the statement *)
+  step_ok ex_env_alias [(1, 2)] ex_st (epoch_end ex_env_alias ex_st (1, 2)) = false.
+Proof. vm_compute. repeat split; reflexivity. Qed.
